@@ -524,10 +524,10 @@ func TestC22(t *testing.T) {
 	}
 	run.Set("exhaustive_key_space", "65536 four-hex shard ids + 256 two-hex volume keys in both cases")
 
-	nShipped := run.N(10, 24)
-	nOther := run.N(6, 18)
+	nShipped := run.N(4, 24)
+	nOther := run.N(3, 18)
 	stride := run.N(4, 1)
-	nLong := run.N(1024, 8192)
+	nLong := run.N(512, 8192)
 	nSample := run.N(3072, 12288)
 	nCrafted := run.N(6, 24)  // crafted re-hash keys per node
 	nLive := run.N(400, 3000) // membership-change steps on a long-lived hash, per key chunk
